@@ -330,6 +330,10 @@ func ruleCtxArmIn(c *Ctx, r *R, onlyRel string) {
 				r.excepted(key, posOf(op.in), reason)
 				continue
 			}
+			if op.kind == "send" && isFreshPrefill(op) {
+				r.discharged(key, posOf(op.in), "pre-fill of a channel made in this function, up to its capacity, before any goroutine is started: cannot block")
+				continue
+			}
 			if op.kind != "select" {
 				r.violated(key, posOf(op.in), "bare blocking "+op.kind+" in a function that takes a context: it cannot be interrupted when the context ends")
 				continue
